@@ -20,7 +20,7 @@ RULE = ('forms: the guide\'s constructs (G0) in dims 1-3 and random forms over t
         'by the reference evaluator; spline/callable fields; parameters); a case is one (form, problem); distinct by descriptor; non-trivial if the assembled '
         'operator was compared entrywise with the reference and the reference is not identically zero')
 MIN_NONTRIVIAL = {'quick': 60, 'thorough': 900}
-REQUIRED_COUNTERS = ['oracle:entries_vs_reference', 'oracle:zero_outside_joint_support', 'oracle:pattern_within_joint_support', 'oracle:multi_entries_vs_reference', 'stage:compiled', 'stage:assembled',
+REQUIRED_COUNTERS = ['oracle:entries_vs_reference', 'oracle:zero_outside_joint_support', 'oracle:pattern_within_joint_support', 'oracle:multi_entries_vs_reference', 'oracle:after_update_vs_reference', 'stage:compiled', 'stage:assembled',
                      'forms:G0', 'forms:G1', 'measure:volume', 'measure:boundary', 'measure:surface', 'kind:vector', 'kind:two_spaces', 'kind:second_derivatives']
 ASSUMPTIONS = ['tolerance per entry: 1e-10 * (sum over nodes of |kernel| |basis functions| + its maximum over the operator); convention errors are O(1) relative',
                'the geometry maps are orientation preserving (det J >= 0.2 on the Gauss grid and the faces, checked by the reference evaluator)']
@@ -34,6 +34,9 @@ def cases(tier, seed):
         yield {'kind': 'g0', 'dim': dim, 'seed': seed, 'part': 0}
         yield {'kind': 'g0', 'dim': dim, 'seed': seed, 'part': 1}
         yield {'kind': 'g0', 'dim': dim, 'seed': seed, 'part': 2}
+    # fixed forms with updatable fields / parameters / non-square component blocks (shared with the configuration check C08)
+    for dim in (1, 2, 3):
+        yield {'kind': 'fixed', 'dim': dim, 'seed': seed}
     n = {'quick': 48, 'thorough': 700}[tier]
     if san: n = 48
     for i in range(n):
@@ -172,6 +175,31 @@ def check_form(rec, case, desc, rng, nproblems=2):
                 if np.any(E[dis] != 0.0):
                     rec.violation(dict(sig, oracle='entries of pairs without common support are exactly zero', route='multi_entries'), c, {'values': E[dis].tolist()[:5]})
                     rec.case(c, nontrivial=True); continue
+        # ---- update() of updatable input fields: the assembler then computes the integrand for the new data
+        upd = [n for n, f in desc['fields'].items() if f.get('updatable')]
+        if upd and hasattr(asm, 'update'):
+            problem2 = json.loads(json.dumps(problem))
+            fresh = refasm.random_problem(rng, desc)
+            for n_ in upd: problem2['fields'][n_] = fresh['fields'][n_]
+            _, args2, _ = refasm.to_pyiga_inputs(problem2, desc)
+            c2 = dict(c0, problem=problem2, updated=upd, constructed_with=problem['fields'])
+            try:
+                asm.update(**{n_: args2[n_] for n_ in upd})
+                A2 = _dense(assemble.assemble_entries(asm))
+            except Exception as ex:
+                rec.violation(dict(sig, oracle='update() of an updatable field works', stage='update', exc=type(ex).__name__), c2, {'msg': str(ex)[:300], 'where': _where(ex)})
+                rec.case(c, nontrivial=True); continue
+            R2 = refasm.reference(desc, problem2)
+            A2 = A2.reshape(R2['A'].shape)
+            tol2 = 1e-10 * (R2['Aabs'] + (R2['Aabs'].max() if R2['Aabs'].size else 0.0)) + 1e-300
+            with np.errstate(all='ignore'):
+                w2 = float(np.max(np.where(np.isfinite(A2), np.abs(A2 - R2['A']), np.inf) / tol2))
+            rec.count('oracle:after_update_vs_reference'); rec.ratio('after_update_vs_reference', w2, 1.0)
+            if not w2 <= 1.0:
+                k2 = int(np.argmax(np.abs(A2 - R2['A']) / tol2)); i2 = np.unravel_index(k2, A2.shape)
+                rec.violation(dict(sig, oracle='after update() the entries are those of the new input data'), c2,
+                              {'index': [int(i) for i in i2], 'got': float(A2[i2]), 'expected': float(R2['A'][i2]), 'value_before_update': float(A.reshape(R2['A'].shape)[i2])})
+                rec.case(c, nontrivial=True); continue
         rec.case(c, nontrivial=bool(np.any(ref != 0.0)), key={'form': desc, 'problem': problem})
 
 def run_case(rec, case):
@@ -183,6 +211,13 @@ def run_case(rec, case):
         for k, d in enumerate(forms):
             if k % 3 == case['part']:
                 check_form(rec, dict(case, name=d['name']), d, rng, nproblems=2)
+    elif case['kind'] == 'fixed':
+        import importlib
+        c08 = importlib.import_module('c08') if 'c08' in sys.modules else importlib.import_module('checks.c08')
+        rng = rng_for('C01f', case['seed'], case['dim'])
+        for d in c08.forms(case['dim']):
+            d = dict(d, grammar='G1'); d.pop('symmetric_form', None)
+            check_form(rec, dict(case, name=d['name']), d, rng, nproblems=1)
     else:
         rng = rng_for('C01r', case['seed'], case['idx'])
         desc = gen.random_form(rng, depth=int(rng.integers(2, 5)))
